@@ -51,13 +51,45 @@ Proof. exact step_rel. Qed.
 Print Assumptions C35_step_refines_partial.
 
 (* an added attachment is extracted byte for byte, whatever other metadata edits follow *)
-Theorem C35_extract_returns_added : forall d s id data h,
+Theorem C35_extract_returns_added : forall d s id desc data h,
   Rel d s -> m_mem id (s_att s) = false ->
   Forall (fun o => wf_op o = true) h -> forallb (fun o => negb (att_op o)) h = true ->
-  xmp_ok d (AAdd id data :: h) ->
-  extract (run d (AAdd id data :: h)) id = Some data.
+  xmp_ok d (AAdd id desc data :: h) ->
+  extract (run d (AAdd id desc data :: h)) id = Some data.
 Proof. exact extract_returns_added. Qed.
 Print Assumptions C35_extract_returns_added.
+
+(* attachments are a key/value store: after add(k, v), extracting k returns v regardless of
+   the file names and descriptions of all the other entries (the store s is arbitrary) *)
+Theorem C35_extract_after_add : forall d s k desc v,
+  Rel d s -> m_mem k (s_att s) = false -> extract (fst (step d (AAdd k desc v))) k = Some v.
+Proof. exact extract_after_add. Qed.
+Print Assumptions C35_extract_after_add.
+
+(* name resolution: the exact name tree key first ... *)
+Theorem C35_extract_key_first : forall d s k v, Rel d s -> m_get k (s_att s) = Some v ->
+  extract d k = Some (a_data v).
+Proof. exact extract_key_wins. Qed.
+Print Assumptions C35_extract_key_first.
+
+Theorem C35_lookup_key_first : forall k v (m : atts), m_get k m = Some v -> att_find k m = Some (k, v).
+Proof. exact att_find_key_first. Qed.
+Print Assumptions C35_lookup_key_first.
+
+(* ... a file name (UF/F) or description only when no key matches *)
+Theorem C35_lookup_fallback_only_without_key : forall p (m : atts) k v,
+  att_find p m = Some (k, v) -> k <> p -> m_get p m = None /\ (a_fname v = p \/ a_desc v = p).
+Proof. exact att_find_fallback. Qed.
+Print Assumptions C35_lookup_fallback_only_without_key.
+
+(* a.txt carries the description "b.txt" and sorts before the attachment b.txt: extracting
+   "b.txt" returns b.txt's bytes; only after b.txt is removed does the description match *)
+Theorem C35_extract_key_before_description :
+  let h := [AAdd [97; 46; 116; 120; 116] [98; 46; 116; 120; 116] [1; 1]; AAdd [98; 46; 116; 120; 116] [] [2; 2]] in
+  extract (run (empty_doc 17) h) [98; 46; 116; 120; 116] = Some [2; 2]
+  /\ extract (run (empty_doc 17) (h ++ [ARemove [[98; 46; 116; 120; 116]]])) [98; 46; 116; 120; 116] = Some [1; 1].
+Proof. exact extract_key_before_description. Qed.
+Print Assumptions C35_extract_key_before_description.
 
 (* the concrete codecs behind the refinement *)
 Theorem C35_keywords_roundtrip : forall ks, ssorted ks -> Forall (fun k => wfk k = true) ks ->
@@ -151,7 +183,7 @@ Definition nv_hist : list op :=
     PAdd [([208; 154; 32; 35; 40], [26085; 26412; 32; 92; 41])];          (* name bytes "К #(" *)
     LSet 3; MSet 4;
     VSet [Some 1;None;None;None;None;None;Some 4;Some 1;None;None;None;None;None;None;None;Some 2];
-    AAdd [97; 46; 116] [0; 255; 10];
+    AAdd [97; 46; 116] [107] [0; 255; 10];
     KRemove [[1082; 1083; 1102; 1095]];
     PAdd [([107], [118])];
     PAdd [([122; 32; 122], [119])]; PRemove [[107]] ].
@@ -165,12 +197,12 @@ Example C35_nonvacuous :
                    [([122; 32; 122], [119]); ([208; 154; 32; 35; 40], [26085; 26412; 32; 92; 41])]
                    (Some 3) (Some 4)
                    (Some [Some 1;None;None;None;None;None;Some 4;Some 1;None;None;None;None;None;None;None;Some 2])
-                   [([97; 46; 116], [0; 255; 10])])
+                   [([97; 46; 116], ([97; 46; 116], [107], [0; 255; 10]))])
   /\ extract (run (empty_doc 17) nv_hist) [97; 46; 116] = Some [0; 255; 10]
   /\ observe (run (empty_doc 17) (nv_hist ++ [PRemove []]))
      = Some (Store 17 [[105; 110; 32; 110; 101; 114]] [] (Some 3) (Some 4)
                    (Some [Some 1;None;None;None;None;None;Some 4;Some 1;None;None;None;None;None;None;None;Some 2])
-                   [([97; 46; 116], [0; 255; 10])])
+                   [([97; 46; 116], ([97; 46; 116], [107], [0; 255; 10]))])
   /\ Forall (fun o => wf_op o = true) (nv_hist ++ [PRemove []])
   /\ (let d := init_doc 17 true (Some [105; 49; 44; 32; 120; 50]) (Some (Some [120; 49; 59; 32; 120; 50])) in
       Forall (fun k => wfk k = true) (kw_read d) /\ xmp_ok d (KRemove [[120; 49]] :: nv_hist)
